@@ -49,6 +49,8 @@ type Engine struct {
 	invariants    map[string]*Invariant
 	baseFuncs     []string
 	funcAlias     map[*ssa.Global]*ssa.Function
+	known         *KnownFile
+	prop          string
 	mu            sync.Mutex
 }
 
